@@ -11,7 +11,7 @@ EXPLANATION = ("static analysis (operator-class provenance inside compute_swap, 
                "leaves the pool upward breaks x*y non-decrease for concrete inputs (x=y=10, dx=1), so the clause is necessary. On the "
                "stableswap arm the output is reserve - y with y from a Newton iteration: direction undetermined, reported, not claimed")
 ASSUMPTIONS = ["the invariant inequality itself, round-trip non-profitability and every decimals mix are numeric facts that are NOT decided"]
-TECHNIQUE = "static analysis: rounding-direction / operand-role classes on the constant-product swap formula"
+TECHNIQUE = "static analysis: rounding-direction / operand-role classes on the constant-product swap formula, guard cut-set (offer asset != ask asset), unit agreement of decimal scales, coupled-vector order shared with C16"
 LEVEL_TEXT = "One necessary structural clause of the property, exhaustive over the CFG paths of compute_swap's constant-product arm."
 LEVEL_NOTE = "Thin: decides only the rounding/operand-role clause for constant product; the property as a whole is out of reach of static analysis."
 FLOORS = {"ROUND-cp-swap": 2, "CUT-distinct-assets": 2}
